@@ -371,12 +371,22 @@ package queue
 //@   trusted
 //@ func (*SQLiteStore).activeDepthCount
 //@   trusted
+// C12 on the SQLite boundary. sqlDepth is the number of queued+leased rows the open IMMEDIATE transaction sees
+// (ASSUMED to be what activeDepthCountTx reads); sqlEvicted counts rows deleted by dropOldestQueued. SQL text is
+// opaque, so the eviction statement is pinned: it deletes the single queued row with the smallest received_at.
+//@ spec
+//@ ghost var sqlDepth int
+//@ ghost var sqlEvicted int
 //@ func (*SQLiteStore).activeDepthCountTx
 //@   trusted
+//@   ensures result1 == nil ==> result0 == sqlDepth
 //@ func (*SQLiteStore).dropOldestQueued
-//@   trusted
-//@   modifies txPending
-//@   ensures txPending >= old(txPending)
+//@   requires s != nil && conn != nil && txOpen
+//@   modifies durable, txOpen, txPending, sqlDepth, sqlEvicted
+//@   calls database/sql.(*Conn).ExecContext requires [C12:evicts_the_single_oldest_queued_row_never_a_leased_one] arg2 == "\nDELETE FROM queue_items\nWHERE id = (\n  SELECT id FROM queue_items\n  WHERE state = ?\n  ORDER BY received_at ASC\n  LIMIT 1\n);\n" && nvarargs == 1 && vararg0 == "queued"
+//@   sets sqlDepth := ite(result1 == nil && result0, old(sqlDepth) - 1, old(sqlDepth))
+//@   sets sqlEvicted := ite(result1 == nil && result0, old(sqlEvicted) + 1, old(sqlEvicted))
+//@   ensures [stays_in_the_transaction] txOpen && durable == old(durable) && txPending >= old(txPending)
 
 //@ func (*SQLiteStore).commitTx
 //@   requires s != nil && conn != nil
@@ -403,7 +413,11 @@ package queue
 
 //@ func (*SQLiteStore).enqueueWithLimit
 //@   requires s != nil && s.db != nil && !txOpen && txPending == 0 && env.ID != ""
-//@   modifies durable, txOpen, txPending, signals
+//@   modifies durable, txOpen, txPending, signals, sqlDepth, sqlEvicted
+//@   calls dropOldestQueued requires [C12:evicts_only_under_drop_oldest_when_full] s.dropPolicy == "drop_oldest" && sqlDepth >= s.maxDepth && sqlEvicted == old(sqlEvicted)
+//@   calls database/sql.(*Conn).ExecContext requires [C12:stores_only_when_there_is_room_or_one_was_evicted] arg2 == "\nINSERT INTO queue_items (\n  id, route, target, state, received_at, attempt, next_run_at,\n  payload, headers_json, trace_json, schema_version, dead_reason,\n  lease_id, lease_until\n) VALUES (?, ?, ?, ?, ?, ?, ?, ?, ?, ?, ?, ?, NULL, NULL);\n" ==> sqlDepth < s.maxDepth || (sqlEvicted == old(sqlEvicted) + 1 && sqlDepth == old(sqlDepth) - 1)
+//@   ensures [C12:full_queue_under_reject_refuses] s.dropPolicy != "drop_oldest" && sqlDepth >= s.maxDepth ==> result != nil
+//@   ensures [C12:at_most_one_eviction_per_message_stored] sqlEvicted <= old(sqlEvicted) + 1
 //@   calls database/sql.(*Conn).ExecContext requires [C07:the_insert_carries_the_envelope_as_accepted] arg2 == "\nINSERT INTO queue_items (\n  id, route, target, state, received_at, attempt, next_run_at,\n  payload, headers_json, trace_json, schema_version, dead_reason,\n  lease_id, lease_until\n) VALUES (?, ?, ?, ?, ?, ?, ?, ?, ?, ?, ?, ?, NULL, NULL);\n" ==> nvarargs == 12 && vararg0 == env.ID && env.ID != "" && vararg1 == env.Route && vararg2 == env.Target && vararg3 == env.State && vararg5 == env.Attempt && vararg7 == env.Payload && vararg10 == env.SchemaVersion && env.Payload == old(env.Payload) && env.Route == old(env.Route) && env.Target == old(env.Target)
 //@   calls signal requires [C01:signal_only_after_commit] durable > old(durable) && !txOpen
 //@   ensures [C01:nil_implies_committed] result == nil ==> durable > old(durable)
@@ -413,8 +427,9 @@ package queue
 //@ func (*SQLiteStore).Enqueue
 //@   requires s != nil && s.db != nil && !txOpen && txPending == 0
 //@   label P after call maybePrune
-//@   modifies durable, txOpen, txPending, signals
+//@   modifies durable, txOpen, txPending, signals, sqlDepth, sqlEvicted
 //@   calls database/sql.(*DB).ExecContext requires [C07:the_insert_carries_the_envelope_as_accepted] arg2 == "\nINSERT INTO queue_items (\n  id, route, target, state, received_at, attempt, next_run_at,\n  payload, headers_json, trace_json, schema_version, dead_reason,\n  lease_id, lease_until\n) VALUES (?, ?, ?, ?, ?, ?, ?, ?, ?, ?, ?, ?, NULL, NULL);\n" ==> nvarargs == 12 && vararg0 == env.ID && env.ID != "" && vararg1 == env.Route && vararg2 == env.Target && vararg3 == env.State && vararg5 == env.Attempt && vararg7 == env.Payload && vararg10 == env.SchemaVersion && env.Payload == old(env.Payload) && env.Route == old(env.Route) && env.Target == old(env.Target)
+//@   calls database/sql.(*DB).ExecContext requires [C12:the_unchecked_insert_runs_only_without_a_depth_limit] arg2 == "\nINSERT INTO queue_items (\n  id, route, target, state, received_at, attempt, next_run_at,\n  payload, headers_json, trace_json, schema_version, dead_reason,\n  lease_id, lease_until\n) VALUES (?, ?, ?, ?, ?, ?, ?, ?, ?, ?, ?, ?, NULL, NULL);\n" ==> s.maxDepth <= 0
 //@   calls enqueueWithLimit requires [C07:the_limited_path_gets_the_envelope_as_accepted] arg1.Payload == old(env.Payload) && arg1.Route == old(env.Route) && arg1.Target == old(env.Target) && arg1.ID != ""
 //@   calls signal requires [C01:signal_only_after_commit] durable > at(P, durable)
 //@   ensures [C01:nil_implies_committed] result == nil ==> durable > old(durable)
@@ -748,10 +763,15 @@ package queue
 //@ func (*SQLiteStore).EnqueueBatch
 //@   requires s != nil && s.db != nil && !txOpen && txPending == 0
 //@   label P after call maybePrune
-//@   modifies durable, txOpen, txPending, signals
+//@   modifies durable, txOpen, txPending, signals, sqlDepth, sqlEvicted
 //@   loop 1 invariant [no_sql_while_preparing] !txOpen && txPending == 0 && durable == at(P, durable) && signals == old(signals) && rangeindex < len(items) && len(prepared) == rangeindex + 1
 //@   loop 2 invariant [evictions_inside_the_transaction] txOpen && txPending >= 0 && durable == at(P, durable) && signals == old(signals) && !committed && len(prepared) == len(items)
+//@   loop 2 invariant [C12_room_accounting] needed == sqlDepth + len(items) && s.dropPolicy == "drop_oldest" && s.maxDepth > 0
 //@   loop 3 invariant [inserts_inside_the_transaction] txOpen && durable == at(P, durable) && signals == old(signals) && !committed && rangeindex < len(prepared) && txPending >= rangeindex + 1 && len(prepared) == len(items)
+//@   loop 3 invariant [C12_the_whole_batch_fits] s.maxDepth <= 0 || sqlDepth + len(items) <= s.maxDepth
+//@   calls dropOldestQueued requires [C12:evicts_only_under_drop_oldest_while_the_batch_does_not_fit] s.dropPolicy == "drop_oldest" && s.maxDepth > 0 && sqlDepth + len(items) > s.maxDepth
+//@   calls database/sql.(*Conn).ExecContext requires [C12:stores_only_when_the_whole_batch_fits] arg2 == "\nINSERT INTO queue_items (\n  id, route, target, state, received_at, attempt, next_run_at,\n  payload, headers_json, trace_json, schema_version, dead_reason,\n  lease_id, lease_until\n) VALUES (?, ?, ?, ?, ?, ?, ?, ?, ?, ?, ?, ?, NULL, NULL);\n" ==> s.maxDepth <= 0 || sqlDepth + len(items) <= s.maxDepth
+//@   ensures [C12:batch_that_does_not_fit_under_reject_is_refused_whole] len(items) > 0 && s.maxDepth > 0 && s.dropPolicy != "drop_oldest" && sqlDepth + len(items) > s.maxDepth ==> result1 != nil && result0 == 0
 //@   calls signal requires [C01:signal_only_after_commit] durable >= at(P, durable) + len(items) && !txOpen
 //@   ensures [C01:nil_implies_every_insert_committed_together] result1 == nil && len(items) > 0 ==> durable >= at(P, durable) + len(items) && result0 == len(items)
 //@   ensures [C01:error_implies_no_insert_committed] result1 != nil ==> durable == at(P, durable) && result0 == 0
